@@ -25,6 +25,7 @@ import (
 	"github.com/Oneledger/protocol/external_apps/bid/bid_data"
 
 	"olverif/internal/boxcli"
+	"olverif/internal/drive"
 	"olverif/internal/gen"
 	"olverif/internal/hist"
 	"olverif/internal/proto"
@@ -359,6 +360,38 @@ func olvmInputs(w *warm) []c18input {
 		out = append(out, c18input{"OLVM.Data", p.trait, bz})
 		_ = i
 	}
+	// nested frames: the constructor starts an inner creation frame that pays a fresh address, touches existing
+	// accounts for the first time in the transaction and then fails; the outer frame touches them again
+	{
+		x := ethcmn.BytesToAddress(w.w.EthUsers[1%len(w.w.EthUsers)].Addr)
+		y := ethcmn.BytesToAddress(w.w.Users[0].Addr)
+		push20 := func(a ethcmn.Address) []byte { return append([]byte{0x73}, a.Bytes()...) }
+		cat := func(parts ...[]byte) []byte {
+			var b []byte
+			for _, q := range parts {
+				b = append(b, q...)
+			}
+			return b
+		}
+		pay := func(a ethcmn.Address) []byte {
+			return cat([]byte{0x60, 0x00, 0x60, 0x00, 0x60, 0x00, 0x60, 0x00, 0x60, 0x01}, push20(a), []byte{0x5a, 0xf1, 0x50})
+		}
+		for k, end := range [][]byte{{0x60, 0x00, 0x60, 0x00, 0xfd}, {0xfe}, {0x5b, 0x60, 0x00, 0x56}, {0x00}} {
+			fresh := ethcmn.BytesToAddress(ethcrypto.Keccak256([]byte(fmt.Sprintf("c18-fresh-%d-%d", w.seed, k)))[12:])
+			fresh2 := ethcmn.BytesToAddress(ethcrypto.Keccak256([]byte(fmt.Sprintf("c18-fresh2-%d-%d", w.seed, k)))[12:])
+			inner := cat(pay(fresh), push20(x), []byte{0x31, 0x50}, pay(fresh2), push20(y), []byte{0x3b, 0x50}, pay(x), end)
+			tail := cat(push20(x), []byte{0x31, 0x50}, pay(x), push20(y), []byte{0x31, 0x50}, pay(y), pay(fresh), []byte{0x00})
+			// PUSH2 len PUSH2 off PUSH1 0 CODECOPY ; PUSH2 len PUSH1 0 PUSH1 10 CREATE POP ; tail ; inner as data
+			n := len(inner)
+			head := func(off int) []byte {
+				return cat([]byte{0x61, byte(n >> 8), byte(n), 0x61, byte(off >> 8), byte(off), 0x60, 0x00, 0x39, 0x61, byte(n >> 8), byte(n), 0x60, 0x00, 0x60, 0x0a, 0xf0, 0x50}, tail)
+			}
+			off := len(head(0))
+			code := cat(head(off), inner)
+			bz := gen.OLVMTx(c, e, key, nonce, nil, big.NewInt(1000), code, 900000, "1000000000", chain, fmt.Sprint(nonce))
+			out = append(out, c18input{"OLVM.Data", []string{"nested-frame-reverts", "nested-frame-invalid", "nested-frame-out-of-gas", "nested-frame-succeeds"}[k] + "-after-creating-and-touching-accounts", bz})
+		}
+	}
 	// hostile fields around a plain transfer
 	to := ethcmn.BytesToAddress(w.w.EthUsers[1].Addr)
 	// the price currency is the one fee field the EVM-style signature does not cover: a valid transfer with
@@ -542,10 +575,27 @@ func checkC18(tier string) int {
 	}
 	var warms []*warm
 	var wmu sync.Mutex
+	// a node that dies while executing the ordinary traffic of a warm-up chain died of an input all the same
+	var fmu sync.Mutex
+	decided := map[int64]bool{}
+	onWarmFail = func(ws int64, res *drive.Result) {
+		if _, isBox := res.Err.(*hist.BoxError); isBox {
+			fmu.Lock()
+			decided[ws] = true
+			fmu.Unlock()
+			reportRunErr(r, "C18", ws, res)
+		}
+	}
+	defer func() { onWarmFail = nil }()
 	parallel(len(heights), 6, func(i int) {
 		wm, err := makeWarm(seed*100+int64(i)+70, heights[i], 1, allScripts)
 		if err != nil {
-			r.Inconclusive(fmt.Sprintf("warm-up chain %d failed: %v", i, err))
+			fmu.Lock()
+			d := decided[seed*100+int64(i)+70]
+			fmu.Unlock()
+			if !d {
+				r.Inconclusive(fmt.Sprintf("warm-up chain %d failed: %v", i, err))
+			}
 			return
 		}
 		wmu.Lock()
